@@ -39,7 +39,7 @@ def gtextN(s: str) -> str:
 
 def impl_split_lines(core):
     """the line decomposition has_ignore_comment iterates over: core.split_lines; a tree without that helper (before
-    repair 8814bf1, or a regression that drops it) iterates source.splitlines(keepends=True) -- the check then runs
+    repair a37c022, or a regression that drops it) iterates source.splitlines(keepends=True) -- the check then runs
     against that and reports the difference with a failing input instead of crashing"""
     f = getattr(core, "split_lines", None)
     return f if callable(f) else (lambda src: src.splitlines(keepends=True))
